@@ -119,6 +119,9 @@ func c06Run(f []string) string {
 	if ans, ok := c06RunGzip(f); ok {
 		return ans
 	}
+	if ans, ok := c06RunInflate(f); ok {
+		return ans
+	}
 	if ans, ok := c06RunFault(f); ok {
 		return ans
 	}
@@ -471,6 +474,7 @@ func c06Gen(r *Rand, tier string) []string {
 	}
 	out = append(out, c06GenGlobCases(r, tier)...)
 	out = append(out, c06GzipGenCases(r, tier)...)
+	out = append(out, c06InflateGenCases(r, tier)...)
 	out = append(out, c06FaultGenCases(r, tier)...)
 	for i := 0; i < nGlob; i++ {
 		out = append(out, c06GenGlob(r))
@@ -488,6 +492,7 @@ func c06Stats(cases []string) map[string]int {
 		st["op:"+f[0]]++
 		c06GlobStats(st, f)
 		c06GzipStats(st, f)
+		c06InflateStats(st, f)
 		c06FaultStats(st, f)
 		switch f[0] {
 		case "glob":
